@@ -1515,7 +1515,10 @@ impl Date {
             -1 => self.yesterday(),
             1 => self.tomorrow(),
             days => {
-                let days = UnixEpochDay::try_new("days", days).with_context(
+                // N.B. This is a *difference* in days, so it is bounded by
+                // the number of days between the minimum and maximum dates
+                // and not by the range of Unix epoch days themselves.
+                let days = t::SpanDays::try_new("days", days).with_context(
                     || {
                         err!(
                             "{days} computed from duration {duration:?} \
@@ -1523,8 +1526,9 @@ impl Date {
                         )
                     },
                 )?;
-                let days =
-                    self.to_unix_epoch_day().try_checked_add("days", days)?;
+                let days = self
+                    .to_unix_epoch_day()
+                    .try_checked_add("days", UnixEpochDay::rfrom(days))?;
                 Ok(Date::from_unix_epoch_day(days))
             }
         }
